@@ -22,7 +22,7 @@ def handler(job):
         kw.update(weight="linear_ramp", weight_params=dict(zip(("low", "high", "start", "end"), g["ramp"])))
     pim = PersistenceImager(**kw)
     out = {"attrs": [fl(pim.birth_range[0]), fl(pim.pers_range[0]), fl(pim.pixel_size), int(pim.resolution[0]), int(pim.resolution[1])], "imgs": []}
-    D = [np.array(d, dtype=float).reshape(-1, 2) for d in job["dgms"]]
+    D = [np.array(d, dtype=(np.int64 if job.get("intdtype") else float)).reshape(-1, 2) for d in job["dgms"]]
     for call in job["calls"]:
         ids, mode, skew = call["ids"], call["mode"], bool(call["skew"])
         ds = [D[i] for i in ids]      # the SAME array objects are handed over in every call (history matters)
